@@ -204,6 +204,19 @@ def _run_own(chk, S: Session):
         fn = w.fn if isinstance(w, WrappedFn) else None
         ok = isinstance(fn, PartialV) and list(fn.kwargs.get("shape")) == [2]
     r1.require(ok, "MarkovSequence.sample shape recursion", "split the key n ways and vmap sample(shape=remaining) over the keys", f"{T.show(out, 3)}", EST)
+    # ... at every level: a one-dimensional shape (n,) is one more level (remaining = ()), and only the empty shape draws a single trajectory
+    it1 = S.interp()
+    ms1 = rec_of_atoms(it1, MS, "ms", {"reverse": True, "marginal": T.atom("ms.marginal", ndims={"mean_flat": 1}), "conditional": T.atom("ms.conditional", ndims={"noise.mean_flat": 2})})
+    out1 = call(it1, method(it1, ms1, "sample"), A("key"), shape=(5,))
+    ok1 = isinstance(out1, T.Term) and out1.op == "vmap_apply" and out1.args[1] is T.mk("random.split", (A("key"), 5))
+    if ok1:
+        fn1 = out1.args[0].fn if isinstance(out1.args[0], WrappedFn) else None
+        ok1 = isinstance(fn1, PartialV) and list(fn1.kwargs.get("shape")) == []
+    r1.require(ok1, "MarkovSequence.sample shape recursion, last level", "shape (n,): n keys, vmap sample(shape=()) over them", f"{T.show(out1, 3)}: a one-dimensional sample shape does not add its axis", EST)
+    out0 = call(it1, method(it1, ms1, "sample"), A("key"), shape=())
+    ok0 = not any(isinstance(t_, T.Term) and t_.op == "vmap_apply" and isinstance(t_.args[0], WrappedFn) and isinstance(t_.args[0].fn, PartialV) for t_ in T.subterms(out0))
+    r1.require(ok0, "MarkovSequence.sample shape recursion, base case", "shape (): one trajectory, nothing mapped over keys", f"{T.show(out0, 3)}", EST)
+    S.absorb(it1)
     S.absorb(it)
 
     # ---------------- sample_flat per factorisation
